@@ -1,6 +1,7 @@
 package config
 
 import (
+	"strings"
 	"math/rand"
 
 	"github.com/spf13/pflag"
@@ -89,6 +90,47 @@ func VerifC44_Resolution() {
 		a, aerr := c.Ethereum.ContractAddress(name)
 		if explicit[i] {
 			vAssert(aerr == nil && a.Hex() == vExplicitAddr, "an explicitly configured contract address was overridden")
+		}
+	}
+}
+
+// VerifC44_Contracts: one contract address in each state (left unset, a
+// well-formed address, a value with an arbitrary byte in it — well-formed or
+// not), the others all set or all unset: whatever was written explicitly is
+// still there after resolution, character for character.
+func VerifC44_Contracts() {
+	c := &Config{}
+	k := vRange(0, 7)
+	state := vRange(0, 2)
+	others := vBool()
+	odd := []byte(vExplicitAddr)
+	odd[10] = vU8()
+	vals := [8]string{}
+	for i := range vContracts {
+		switch {
+		case i == k && state == 1:
+			vals[i] = vExplicitAddr
+		case i == k && state == 2:
+			vals[i] = string(odd)
+		case i != k && others:
+			vals[i] = "0x2222222222222222222222222222222222222222"
+		}
+		if vals[i] != "" {
+			if c.Ethereum.ContractAddresses == nil {
+				c.Ethereum.ContractAddresses = map[string]string{}
+			}
+			c.Ethereum.SetContractAddress(vContracts[i], vals[i])
+		}
+	}
+	c.resolveContractsAddresses()
+	vReach("resolved")
+	for i, name := range vContracts {
+		got := c.Ethereum.ContractAddresses[strings.ToLower(name)]
+		if vals[i] != "" {
+			if i == k && state == 2 {
+				vReach("odd-explicit")
+			}
+			vAssert(got == vals[i], "an explicitly configured contract address was replaced")
 		}
 	}
 }
